@@ -668,3 +668,12 @@ Proof.
 Qed.
 
 End Sound.
+
+(* the boolean check of the exported class table implies the hypothesis sets_good *)
+Lemma sets_good_b cat_in sets : forallb cls_good_b sets = true -> sets_good cat_in sets.
+Proof.
+  intros H id. unfold set_cls. rewrite forallb_forall in H.
+  destruct (nth_in_or_default (Z.to_nat id) sets empty_cls) as [Hin|Hd].
+  - apply a2_cls_good_b. apply H. exact Hin.
+  - rewrite Hd. apply (a2_empty_acc cat_in).
+Qed.
